@@ -204,7 +204,7 @@ var propC16 = &modelProp{
 	nt: func(e *Env) bool {
 		return e.flags["case-changed-on-store"] > 0 && e.flags["probe-case-changed"] > 0
 	},
-	rule: "strings over mixed-case ASCII, Latin/Greek/Cyrillic/Armenian letters and special-casing runes (ß ı İ ǅ ς ſ K Σ ...); upper, lower or both on top-level, nested-by-value, behind-pointer (nil and non-nil) and embedded string paths, each indexed / unindexed / unique. Oracle: stored == ToLower?(ToUpper?(supplied)) on every read path; re-saving a stored object changes nothing (idempotence); for probe p: match <=> canonical(p) compares with the stored canonical value, identically on indexed and unindexed paths; unique conflict <=> canonical values equal. TestC16Tags drives the struct-tag path (DefaultSchema + `sod:"unique,lower"`, `upper`, `index`, tags on nested, behind-pointer and embedded fields) with the same oracle written directly on strings.ToUpper/ToLower, and checks that unique implies an index while an untagged field has none. Value sources include strings longer than 32 bytes in both cases. Non-trivial: >=1 stored value changed by canonicalisation and >=1 probe changed by canonicalisation. Distinct by program hash.",
+	rule: "strings over mixed-case ASCII, Latin/Greek/Cyrillic/Armenian letters and special-casing runes (ß ı İ ǅ ς ſ K Σ ...); upper, lower or both on top-level, nested-by-value, behind-pointer (nil and non-nil) and embedded string paths, each indexed / unindexed / unique. Oracle: stored == ToLower?(ToUpper?(supplied)) on every read path; re-saving a stored object changes nothing (idempotence); for probe p: match <=> canonical(p) compares with the stored canonical value, identically on indexed and unindexed paths; unique conflict <=> canonical values equal. TestC16Tags drives the struct-tag path (DefaultSchema + sod tags unique,lower / upper / index, tags on nested, behind-pointer and embedded fields) with the same oracle written directly on strings.ToUpper/ToLower, and checks that unique implies an index while an untagged field has none. Value sources include strings longer than 32 bytes in both cases. Non-trivial: >=1 stored value changed by canonicalisation and >=1 probe changed by canonicalisation. Distinct by program hash.",
 	after: func(e *Env) {
 		// explicit idempotence check on what the database returns
 		objs, err := e.db.All(&Doc{})
